@@ -60,15 +60,29 @@ NULL_CALLS = ["cset 1 0", "cget 1 0", "cmeta 1 0", "cshape 1 0", "cstart 0 0", "
               "sset 1 2", "sget 0", "smeta 0", "sstart 0 3", "sstop 0 2", "sappend 2 3", "sreserve 0", "sclose 0 0"]
 
 
-def gen_subtree(kind, thorough, prefix, live, depth):
+STATELESS = ("cget", "cmeta", "cshape", "cset 0", "sget", "smeta", "sreserve", "sset 0", "sappend 1", "sappend 0",
+             "svalidate 0 0 1 1 0", "svalidate 0 1")
+
+
+def alphabet(kind, alpha):
+    """letters usable while a handle is held. alpha: 'quick' | 'more' (quick + rarer answers / NULL arguments) |
+    'core' (quick without the letters that cannot change any state: getters, NULL arguments, empty appends)"""
+    base = CAM_QUICK if kind == "c" else STO_QUICK
+    if alpha == "more":
+        return base + (CAM_MORE if kind == "c" else STO_MORE)
+    if alpha == "core":
+        return [l for l in base if not l.startswith(STATELESS)]
+    return base
+
+
+def gen_subtree(kind, alpha, prefix, live, depth):
     """every continuation of `prefix` by `depth` more lines: while no handle is held an open (any variant), while one
     is held any letter of the kind's alphabet (open variants that hand out a device make the handle live; close drops it)."""
     if kind == "c":
         opens_ok, opens_all, close = set(CAM_OPEN_OK), CAM_OPEN_ALL, "cclose"
-        letters = CAM_QUICK + (CAM_MORE if thorough else [])
     else:
         opens_ok, opens_all, close = set(STO_OPEN_OK), STO_OPEN_ALL, "sclose"
-        letters = STO_QUICK + (STO_MORE if thorough else [])
+    letters = alphabet(kind, alpha)
 
     def rec(prefix, live, d):
         if d == 0:
@@ -84,16 +98,16 @@ def gen_subtree(kind, thorough, prefix, live, depth):
     yield from rec(list(prefix), live, depth)
 
 
-def exhaustive_tasks(kind, thorough, depth, split=2):
+def exhaustive_tasks(kind, alpha, depth, split=2):
     """the tree of gen_subtree cut at depth `split`: one task per node there"""
     tasks = []
     opens_ok = set(CAM_OPEN_OK if kind == "c" else STO_OPEN_OK)
     close = "cclose" if kind == "c" else "sclose"
-    for p in gen_subtree(kind, thorough, [], False, split):
+    for p in gen_subtree(kind, alpha, [], False, split):
         live = False
         for l in p:
             live = (l in opens_ok) if not live else not l.startswith(close)
-        tasks.append(("ex", kind, thorough, p, live, depth - split))
+        tasks.append(("ex", kind, alpha, p, live, depth - split))
     return tasks
 
 
@@ -296,8 +310,8 @@ def _work(task):
     """pool worker: expand a task into cases, run them, return (problems with their scripts, stats, n, aborted)"""
     exe, drv, soft, spec = task
     if spec[0] == "ex":
-        _, kind, thorough, prefix, live, depth = spec
-        cases = list(gen_subtree(kind, thorough, prefix, live, depth))
+        _, kind, alpha, prefix, live, depth = spec
+        cases = list(gen_subtree(kind, alpha, prefix, live, depth))
     else:
         cases = spec[1]
     st = new_stats()
@@ -337,14 +351,34 @@ ORACLE_TEXT = {
 }
 
 
+def shrink(ops, fails):
+    """ddmin on the lines, then drop trailing driver answers (an exhausted queue answers 0) and zero the rest"""
+    small = C.ddmin(ops, fails, max_runs=80) if len(ops) > 1 else list(ops)
+    for i in range(len(small)):
+        toks = small[i].split()
+        while len(toks) > 2:
+            cand = small[:i] + [" ".join(toks[:-1])] + small[i + 1:]
+            if not fails(cand):
+                break
+            toks = toks[:-1]
+            small = cand
+    return small
+
+
 def report(ctx, exe, drv, ops, kind, det, soft):
     if kind == "oracle":
         ok = det["msg"].split()[1]
         sig = "h_hal:oracle:%s" % ok
+        if ok == "write-after-close":
+            # the same store that the real-free run reports as heap-use-after-free: one defect, one violation
+            for v in ctx.violations:
+                if v["kind"] == "crash" and "heap-use-after-free WRITE" in v["signature"]:
+                    v["count"] += 1
+                    return
         if any(v["signature"] == sig for v in ctx.violations):
             ctx.violation("oracle", sig, "", None)
             return
-        small = C.ddmin(ops, lambda xs: fails_with(exe, drv, xs, "oracle", ok, soft), max_runs=80)
+        small = shrink(ops, lambda xs: fails_with(exe, drv, xs, "oracle", ok, soft))
         ctx.violation("oracle", sig,
                       "real HAL violates the property: %s [%s] on `%s`" % (ORACLE_TEXT.get(ok, ok), det["msg"], "; ".join(small)),
                       {"harness": "h_hal", "mode": "soft" if soft else "free", "script": ["new"] + small})
@@ -353,14 +387,14 @@ def report(ctx, exe, drv, ops, kind, det, soft):
         if any(v["signature"] == sig for v in ctx.violations):
             ctx.violation("crash", sig, "", None)
             return
-        small = C.ddmin(ops, lambda xs: fails_with(exe, drv, xs, "crash", det["site"], soft), max_runs=80)
+        small = shrink(ops, lambda xs: fails_with(exe, drv, xs, "crash", det["site"], soft))
         ctx.violation("crash", sig,
                       "real HAL touches a released device / crashes: %s on `%s`" % (det["site"], "; ".join(small)),
                       {"harness": "h_hal", "mode": "soft" if soft else "free", "script": ["new"] + small,
                        "sanitizer_report": det["report"]})
     elif kind == "diff":
         if len(ctx.corr_broken) < 3:
-            small = C.ddmin(ops, lambda xs: fails_with(exe, drv, xs, "diff", None, soft), max_runs=60)
+            small = shrink(ops, lambda xs: fails_with(exe, drv, xs, "diff", None, soft))
             again = [d for _, k, d in single(exe, drv, small, soft) if k == "diff"]
             ctx.corr_broken.append({"what": "hal/*.c and the Lean model disagree", "script": ["new"] + small,
                                     "at": again[0] if again else det})
@@ -392,7 +426,7 @@ def load_corpus():
 
 
 def plan(ctx):
-    """[(group name, [task spec])]; a task spec is ("ex", kind, thorough, prefix, live, depth) or ("cases", [ops...])"""
+    """[(group name, [task spec])]; a task spec is ("ex", kind, alphabet, prefix, live, depth) or ("cases", [ops...])"""
     thorough = ctx.tier == "thorough"
     rng = ctx.rng
     groups = [("corpus", [("cases", load_corpus())])]
@@ -401,8 +435,12 @@ def plan(ctx):
     groups.append(("random", [("cases", rnd[i:i + 500]) for i in range(0, len(rnd), 500)]))
     nullc = [[a, b] for a in NULL_CALLS for b in NULL_CALLS[:3]] + [[a] for a in NULL_CALLS]
     groups.append(("null-handle", [("cases", nullc)]))
-    groups.append(("exhaustive-camera", exhaustive_tasks("c", thorough, EX_DEPTH)))
-    groups.append(("exhaustive-storage", exhaustive_tasks("s", thorough, EX_DEPTH, split=3 if thorough else 2)))
+    alpha = "more" if thorough else "quick"
+    groups.append(("exhaustive-camera", exhaustive_tasks("c", alpha, EX_DEPTH)))
+    groups.append(("exhaustive-storage", exhaustive_tasks("s", alpha, EX_DEPTH, split=3 if thorough else 2)))
+    if thorough:
+        groups.append(("exhaustive-camera-depth6-core", exhaustive_tasks("c", "core", EX_DEPTH + 1, split=3)))
+        groups.append(("exhaustive-storage-depth6-core", exhaustive_tasks("s", "core", EX_DEPTH + 1, split=3)))
     return groups
 
 
@@ -475,12 +513,34 @@ def explore(ctx):
         "tuple: statuses {Ok,Err,other}, states {Closed..Running,invalid}); (c) NULL-handle calls; (d) %d seeded random histories "
         "of 1..40 calls over both kinds with arbitrary answers. Compared per line: returned status, reported state, driver call log "
         "(with the state field the driver sees at each vtable call). non-trivial = the driver saw stop/get_frame/append or a "
-        "describe-failure close; distinct = distinct canonical outputs of such cases." % (
+        "describe-failure close; distinct = distinct canonical outputs of such cases.%s" % (
             EX_DEPTH, len(CAM_OPEN_ALL), len(STO_OPEN_ALL),
             len(CAM_QUICK + CAM_MORE) if thorough else len(CAM_QUICK),
-            len(STO_QUICK + STO_MORE) if thorough else len(STO_QUICK), sizes.get("random", 0)))
+            len(STO_QUICK + STO_MORE) if thorough else len(STO_QUICK), sizes.get("random", 0),
+            (" Thorough also: every history of %d lines over the %d camera / %d storage letters that can change state (no getters, "
+             "NULL arguments, empty appends)." % (EX_DEPTH + 1, len(alphabet("c", "core")), len(alphabet("s", "core")))) if thorough else ""))
     ctx.cov["model_branch_hits"] = dict(sorted(stats["branches"].items()))
     ctx.cov["model_branches_distinct"] = len(stats["branches"])
+    # the branches the theorems case-split on, by name (label = call+arg . handle kind+state before . returned . state after . driver calls)
+    key = {
+        "camera_get_frame fails while Running -> stop": "cframe0.C3.1.1.2",
+        "camera_set fails while Running -> stop": "cset1.C3.1.1.2",
+        "camera_get_frame refused outside Running": "cframe0.C1.1.1.0",
+        "camera_stop answered outside the enum (state kept)": "cstop0.C3.2.3.1",
+        "storage_close of a Running device (stop, close)": "sclose0.S3.0.0.2",
+        "storage_stop answered Running (stop failed)": "sstop0.S3.1.3.1",
+        "storage_set answered Running": "sset1.S1.1.3.1",
+        "storage_append refused outside Running": "sappend2.S2.1.2.0",
+        "open: describe fails, device closed again (camera)": "copen0.N0.1.0.3",
+        "open: describe fails, device closed again (storage)": "sopen0.N0.1.0.3",
+        "open: driver hands out no device": "copen0.N0.1.0.1",
+        "storage_validate with a handle held, set answered Running (open, describe, set, stop, close)": "svalidate0.S1.1.1.5",
+        "call on a NULL handle": "cstart0.N0.1.0.0",
+    }
+    ctx.cov["key_branch_hits"] = {k: stats["branches"].get(v, 0) for k, v in key.items()}
+    missing = [k for k, n in ctx.cov["key_branch_hits"].items() if n == 0]
+    if missing:
+        ctx.notes.append("branches not exercised in this run: %s" % "; ".join(missing))
     ctx.cov["samples"] = samples
     return stats
 
